@@ -93,6 +93,21 @@ theorem adjacent_revChain (rev : Oms → Oms) (c : List Oms) (h : Adjacent c) (h
 theorem mem_revChain (rev : Oms → Oms) (c : List Oms) (x : Oms) : x ∈ revChain rev c ↔ ∃ o ∈ c, rev o = x := by
   simp [revChain]
 
+theorem sitesOf_append_singleton (l : List Oms) (x : Oms) (hl : l ≠ []) :
+    sitesOf (l ++ [x]) = sitesOf l ++ [x.dst] := by
+  cases l with
+  | nil => exact absurd rfl hl
+  | cons a t => simp [sitesOf]
+
+theorem revChain_cons (rev : Oms → Oms) (o : Oms) (c : List Oms) :
+    revChain rev (o :: c) = revChain rev c ++ [rev o] := by
+  simp [revChain]
+
+theorem revChain_ne_nil (rev : Oms → Oms) (c : List Oms) (h : c ≠ []) : revChain rev c ≠ [] := by
+  cases c with
+  | nil => exact absurd rfl h
+  | cons a t => simp [revChain]
+
 /-! ### links as ROADM pairs -/
 
 theorem linkDisjointB_iff (isRoadm : V → Bool) (p q : List V) :
